@@ -59,8 +59,10 @@ theorem exact_transfer_count_partial (cfg : Cfg) (tbl : List Nat) (ops : List Op
 /-- EXACT transfer count, equality (state form), after every operation history: an object without carousel mode that
     has not been removed is gone from the sender (`is_added` false, hence not in `nb_objects`, and by
     `lifecycle_checked` / `later_publications_exclude` in no later FDT instance) IF AND ONLY IF it has completed
-    exactly `max(1, max_transfer_count)` transfers (StopTransfer events; `exact_transfer_count_partial`: never more,
-    and unforced ones are whole on the wire).  What remains is that it does get there:
+    exactly `max(1, max_transfer_count)` transfer ATTEMPTS (StopTransfer events; for a stream source with a fault
+    schedule - outside C12's quantifier, observation sched-9 - attempts that failed to start count, so such an object
+    can be gone with fewer transfers on the wire; `exact_transfer_count_partial`: never more, and under `a.faults = []`
+    the unforced ones are whole on the wire).  What remains is that it does get there:
     `exact_transfer_count_eventually` and the `*_liveness_step_partial` theorems. -/
 theorem exact_transfer_count (cfg : Cfg) (tbl : List Nat) (ops : List Op) (toi : Nat) (a : AddArgs)
     (ha : (LM.run toi (trace cfg tbl ops)).args = some a) (hc : a.carousel = none)
@@ -107,8 +109,10 @@ theorem exact_transfer_count_eventually (cfg : Cfg) (tbl : List Nat)
     ¬ AllIn toi N (run (init cfg tbl) ops) tks :=
   leaves_within cfg tbl hsorted ops toi N f hu hprio tks hlen
 
-/-- LIVENESS FOR PACED SENDERS OVER SEVERAL INSTANTS (trace form of the step theorem, under "the clock eventually
-    passes every pacing gate"): after every history (buffer sources), let object `toi` be without carousel and
+/-- A COUNTING BOUND over several instants, paced peers allowed (trace form of the step theorem) - NOT an "eventually":
+    it bounds the number of GOOD polls and is satisfied with zero good polls by a history in which no poll ever returns
+    `None` (FDT-only starvation, finding sched-11 / `dur0_advancing_clock_starves`: there the object is never sent and
+    this theorem does not say otherwise).  Statement: after every history (buffer sources), let object `toi` be without carousel and
     published (FullFDT), and consider ANY further sequence of polls `rs` - arbitrary instants (they need not even be
     monotone), arbitrary tick inputs, any number of polls per instant.  Call a poll of the sequence GOOD when it
     returns `None` although, at its instant, every pacing gate of the sender is open (`gatesOpen`: the clock has
@@ -118,9 +122,12 @@ theorem exact_transfer_count_eventually (cfg : Cfg) (tbl : List Nat)
     grows) - it cannot be waiting (`strict_priority`) nor pacing.  Since polling an instant reaches `None`
     (`read_terminates`), a caller that keeps polling instants past the due times the sender computed makes good polls,
     and after at most `max(1, max_transfer_count)` of them the object has completed all its transfers and is gone
-    (`exact_transfer_count`).  Paced PEERS are covered: a gate that is still closed at a `None` poll simply makes
-    that poll not good. -/
-theorem exact_transfer_count_paced_liveness (cfg : Cfg) (tbl : List Nat)
+    (`exact_transfer_count`) - that step from the polling discipline to "good polls occur" is prose, not composed here
+    (a drained instant whose gates have all been passed ends with a good poll; a paced packet sent at that instant moves
+    its gate beyond it, so the instant's last poll is then not good although progress was made).  Paced PEERS are
+    covered: a gate that is still closed at a `None` poll simply makes that poll not good; `gatesOpen` asks it of EVERY
+    object of the sender, so one paced carousel peer with a long tick makes few polls good. -/
+theorem exact_transfer_count_good_polls_bound (cfg : Cfg) (tbl : List Nat)
     (hsorted : (cfg.queues.map (fun x => x.1)).Pairwise (fun a b => a < b)) (ops : List Op) (toi : Nat) (f : FileDesc)
     (hu : Tracked (run (init cfg tbl) ops) toi f) (hprio : f.prio ∈ cfg.queues.map (fun x => x.1))
     (rs : List (Nat × List (Nat × Nat))) (hall : AllInSeq toi (run (init cfg tbl) ops) rs) :
@@ -508,6 +515,28 @@ def obj1 : AddArgs := { prio := 0, nSym := 1, maxCount := 1, carousel := none, s
 def slowPoll : List Op := [.add obj1, .publish 0] ++ (List.range 6).map (fun i => Op.read ((i + 1) * 1000000000) [])
 
 example : (LM.run 1 (trace cfgS [] slowPoll)).starts = 0 := by decide
+
+set_option maxRecDepth 20000 in
+/-- **F24 is repaired for ONE instant only**: `fdt_duration = 0` with an ADVANCING clock (one read per nanosecond, 24
+    reads after the publication) still never starts the object - every poll finds the current instance expired
+    (`0 ≤ elapsed`, `last_publish ≠ now`) and republishes: the instance of finding sched-11 with threshold 0.  At one
+    fixed instant the same history sends the object (`read_terminates`, repair 78a5fe7). -/
+theorem dur0_advancing_clock_starves :
+    (LM.run 1 (trace { cfgS with fdtDuration := 0 } []
+      ([.add obj1, .publish 7] ++ (List.range 24).map (fun i => Op.read (8 + i) [])))).starts = 0 ∧
+    (LM.run 1 (trace { cfgS with fdtDuration := 0 } []
+      ([.add obj1, .publish 7] ++ List.replicate 12 (Op.read 7 [])))).stops = 1 := by
+  constructor <;> decide
+
+set_option maxRecDepth 20000 in
+/-- **sched-11 beyond n = 1**: 3-packet FDT instances, `fdt_duration` = 1 s, one read every 0.34 s (3 × 0.34 s ≥ 1 s):
+    over 24 reads (8 instances) no transfer ever starts; one read every 0.30 s (3 × 0.30 s < 1 s): the object is sent. -/
+theorem slow_poll_three_packet_instances_starve :
+    (LM.run 1 (trace cfgS (List.replicate 40 3)
+      ([.add obj1, .publish 0] ++ (List.range 24).map (fun i => Op.read ((i + 1) * 340000000) [])))).starts = 0 ∧
+    (LM.run 1 (trace cfgS (List.replicate 40 3)
+      ([.add obj1, .publish 0] ++ (List.range 24).map (fun i => Op.read ((i + 1) * 300000000) [])))).stops = 1 := by
+  constructor <;> decide
 example : (LM.run 1 (trace cfgS [] ([.add obj1, .publish 0] ++ (List.replicate 6 (Op.read 1000000000 []))))).stops = 1 := by
   decide
 
@@ -549,7 +578,7 @@ example : ∃ f, WaitsEligible (run (init cfg1 [1]) [.add obj3, .publish 5]) 1 5
     (faultfree_run cfg1 [1] [.add obj3, .publish 5] (by intro a ha; simp at ha; rw [ha]; rfl)), by rw [h5]; decide⟩
 example : (read (read (run (init cfg1 [1]) [.add obj3, .publish 5]) 5 []).1 5 []).1.log.any (badEv2 1) = true := by decide
 
-/-- non-vacuity of `exact_transfer_count_paced_liveness`: a paced object (3 packets, target 30 ns -> tick 10, 2
+/-- non-vacuity of `exact_transfer_count_good_polls_bound`: a paced object (3 packets, target 30 ns -> tick 10, 2
     transfers): the poll at instant 75, after the last packet of the second transfer (instant 60, next due time 70),
     is good: gates open, `None`, and it releases the transfer -/
 def pacedObj : AddArgs := { prio := 0, nSym := 3, maxCount := 2, carousel := none, start := none, target := some (.dur 30), allowStop := false }
